@@ -189,7 +189,8 @@ func (m *vfC09Model) count(cat int, client, domain string, n uint64) {
 }
 
 // makeOptional turns everything counted so far into counts that may or may not
-// be reported any more.
+// be reported any more.  The first hourly read that shows an hour decides which
+// (see vfC09CheckRead): kept counts stay, dropped counts stay away.
 func (m *vfC09Model) makeOptional() {
 	for _, mh := range m.hours {
 		mh.sure.addTo(mh.opt)
@@ -379,10 +380,16 @@ func vfC09CheckRead(m *vfC09Model, body []byte) (info vfC09ReadInfo, err error) 
 				}
 				if hasOpt {
 					info.optShown++
+					// The counts were kept: from now on they are counts like
+					// any other and may only leave with their hour.
+					mh.opt.addTo(mh.sure)
+					mh.opt = vfC09NewCounts()
 				}
 			case hasOpt && got == sure:
 				mh.sure.addTo(reported)
 				info.optHidden++
+				// The counts were dropped: they must not come back.
+				mh.opt = vfC09NewCounts()
 				if mh.uncertain && mh.sure.total() > 0 {
 					info.uncertainShown++
 				}
